@@ -14,6 +14,7 @@ use vibesql_types::SqlValue;
 enum Ty {
     Int,
     Dbl,
+    Real, // REAL column: SqlValue::Real(f32); quarter values are exact in f32 too
     Str,
 }
 
@@ -22,6 +23,7 @@ enum V {
     Null,
     Int(i64),
     Q(i64, bool), // quarter-valued double k/4; the flag marks a negative zero
+    R(i64, bool), // the same as a REAL (f32) value
     Str(String),
 }
 
@@ -30,6 +32,7 @@ fn sqlv(v: &V) -> SqlValue {
         V::Null => SqlValue::Null,
         V::Int(i) => SqlValue::Integer(*i),
         V::Q(k, negz) => SqlValue::Double(if *k == 0 && *negz { -0.0 } else { *k as f64 / 4.0 }),
+        V::R(k, negz) => SqlValue::Real(if *k == 0 && *negz { -0.0 } else { *k as f32 / 4.0 }),
         V::Str(s) => SqlValue::Varchar(s.clone()),
     }
 }
@@ -38,7 +41,7 @@ fn coq_v(v: &V) -> String {
     match v {
         V::Null => "VNull".into(),
         V::Int(i) => format!("VInt ({})", i * 4),
-        V::Q(k, _) => format!("VInt ({})", k),
+        V::Q(k, _) | V::R(k, _) => format!("VInt ({})", k),
         V::Str(s) => format!("VStr [{}]", s.bytes().map(|b| b.to_string()).collect::<Vec<_>>().join("; ")),
     }
 }
@@ -47,7 +50,7 @@ fn sql_lit(v: &V) -> String {
     match v {
         V::Null => "NULL".into(),
         V::Int(i) => format!("{}", i),
-        V::Q(k, _) => format!("{:?}", *k as f64 / 4.0),
+        V::Q(k, _) | V::R(k, _) => format!("{:?}", *k as f64 / 4.0),
         V::Str(s) => format!("'{}'", s),
     }
 }
@@ -61,6 +64,10 @@ fn gen_v(r: &mut Rng, t: Ty, null_pct: u64) -> V {
         Ty::Dbl => {
             let k = r.range(-12, 32);
             V::Q(k, k == 0 && r.chance(1, 2))
+        }
+        Ty::Real => {
+            let k = r.range(-6, 12);
+            V::R(k, k == 0 && r.chance(1, 2))
         }
         Ty::Str => V::Str(r.pick(&["", "a", "A", "ab", "b", "ba", "c"]).to_string()),
     }
@@ -126,7 +133,7 @@ fn main() {
     for k in 0..ntab {
         let mut r = Rng::new(args.seed, &format!("c07/tab/{}", k));
         let ncols = 2 + r.below(4) as usize;
-        let tys: Vec<Ty> = (0..ncols).map(|_| *r.pick(&[Ty::Int, Ty::Int, Ty::Dbl, Ty::Dbl, Ty::Str])).collect();
+        let tys: Vec<Ty> = (0..ncols).map(|_| *r.pick(&[Ty::Int, Ty::Int, Ty::Dbl, Ty::Dbl, Ty::Real, Ty::Str])).collect();
         let nulls: Vec<u64> = (0..ncols).map(|_| *r.pick(&[0u64, 0, 30, 30, 60, 100])).collect();
         let nrows = match r.below(10) {
             0 => 0,
@@ -136,7 +143,7 @@ fn main() {
         };
         let rows: Vec<Vec<V>> = (0..nrows).map(|_| (0..ncols).map(|c| gen_v(&mut r, tys[c], nulls[c])).collect()).collect();
         let mut db = Database::new();
-        let cols_sql: Vec<String> = tys.iter().enumerate().map(|(i, t)| format!("c{} {}", i, match t { Ty::Int => "INTEGER", Ty::Dbl => "DOUBLE PRECISION", Ty::Str => "VARCHAR(10)" })).collect();
+        let cols_sql: Vec<String> = tys.iter().enumerate().map(|(i, t)| format!("c{} {}", i, match t { Ty::Int => "INTEGER", Ty::Dbl => "DOUBLE PRECISION", Ty::Real => "REAL", Ty::Str => "VARCHAR(10)" })).collect();
         sql::must(&mut db, &format!("CREATE TABLE t ({})", cols_sql.join(", ")));
         for row in &rows {
             db.insert_row("T", Row::new(row.iter().map(sqlv).collect())).expect("insert_row");
@@ -154,6 +161,9 @@ fn main() {
                 let mut lit = gen_v(&mut r, tys[c], 0);
                 if let V::Q(k2, _) = lit {
                     lit = V::Q(k2, false);
+                }
+                if let V::R(k2, _) = lit {
+                    lit = V::R(k2, false);
                 }
                 // negative literals are written with a leading minus, which the executor folds
                 Some((c, op, opc, lit))
@@ -257,7 +267,7 @@ fn main() {
                     Some((c, op, _, lit)) => {
                         let ord = match (&row[*c], lit) {
                             (V::Int(a), V::Int(b)) => Some((a * 4).cmp(&(b * 4))),
-                            (V::Q(a, _), V::Q(b, _)) => Some(a.cmp(b)),
+                            (V::Q(a, _), V::Q(b, _)) | (V::R(a, _), V::R(b, _)) => Some(a.cmp(b)),
                             (V::Str(a), V::Str(b)) => Some(a.as_bytes().cmp(b.as_bytes())),
                             _ => None,
                         };
